@@ -233,7 +233,8 @@ tagspec(struct scope *s)
 		break;
 	case TYPEENUM:
 		enumconsts = NULL;
-		if (et) {
+		if (t->base) {
+			/* fixed underlying type, given here or in an earlier declaration of the tag */
 			t->size = t->base->size;
 			t->align = t->base->align;
 			t->u.basic.issigned = t->base->u.basic.issigned;
